@@ -3,4 +3,4 @@
 package leader
 
 // verifYield is a no-op in the default build (see verif_hooks.go).
-func verifYield(site string) {}
+func (e *kvElection) verifYield(site string) {}
